@@ -451,8 +451,9 @@ func genWord(r *hx.Rng, ty string, ascii bool) uint64 {
 	}
 }
 
-// misplaced: also generate elements before vertex / between vertex and face (see notes/C08.md: the reader does not
-// read elements in header order; generated only when the finding is listed, flag -misplaced)
+// misplaced: also generate elements before vertex / between vertex and face.  Outside the property's quantifier (only
+// the vertex and face elements are quantified over); the reader does not read elements in header order, see
+// notes/C08.md "observed, outside the quantifier".  Off by default; flag -misplaced for exploration.
 var misplaced bool
 
 func genOther(r *hx.Rng, pos string, ascii bool) Other {
@@ -606,7 +607,7 @@ func genSpec(r *hx.Rng) Spec {
 		seen[s.VProps[i].Name] = true
 	}
 	// types outside the property's quantifier (char, short, ushort, uint) on a small share of the files
-	if r.Chance(1, 12) {
+	if r.Chance(1, 20) {
 		for k := 1 + r.Intn(2); k > 0; k-- {
 			s.VProps[r.Intn(len(s.VProps))].Ty = hx.Pick(r, []string{"char", "short", "ushort", "uint"})
 		}
@@ -626,10 +627,10 @@ func genSpec(r *hx.Rng) Spec {
 		s.HasFace = true
 		ip := FProp{Ct: hx.Pick(r, []string{"uchar", "uchar", "int", "uint"}), Lt: hx.Pick(r, []string{"int", "uint"}),
 			Name: hx.Pick(r, []string{"vertex_indices", "vertex_indices", "vertex_index"})}
-		if r.Chance(1, 30) {
+		if r.Chance(1, 50) {
 			ip.Ct = hx.Pick(r, []string{"ushort", "char", "short"})
 		}
-		if r.Chance(1, 30) {
+		if r.Chance(1, 50) {
 			ip.Lt = hx.Pick(r, []string{"uchar", "short", "ushort"})
 		}
 		s.FProps = []FProp{ip}
@@ -656,7 +657,7 @@ func genSpec(r *hx.Rng) Spec {
 			nf = r.Range(0, 5)
 		}
 		quads := r.Intn(3)      // 0: triangles only, 1: mixed, 2: quads only
-		ngon := r.Chance(1, 25) // the last face is not a triangle or quad (outside the property: reported)
+		ngon := r.Chance(1, 30) // the last face is not a triangle or quad (outside the property: reported)
 		for f := 0; f < nf; f++ {
 			pts := 3
 			if quads == 2 || (quads == 1 && r.Bool()) {
@@ -726,7 +727,7 @@ func genSpec(r *hx.Rng) Spec {
 		}
 	}
 	// a list property on the vertex element (outside the property: reported as unimplemented)
-	if r.Chance(1, 30) {
+	if r.Chance(1, 40) {
 		vl := &VList{At: r.Intn(len(s.VProps) + 1), Ct: "uchar", Ty: hx.Pick(r, []string{"int", "float", "uchar"}), Name: "neighbours"}
 		for range s.Verts {
 			var ws []uint64
@@ -792,7 +793,6 @@ func misplacedRows(s Spec) (any, harmful bool) {
 	return
 }
 
-const keyElements = "ply:elements-not-read-in-header-order"
 const keyUcharRaw = "ply:ascii-uchar-scalar-raw"
 
 func specCase(s Spec, kind string) hx.Case {
@@ -832,9 +832,12 @@ func specCase(s Spec, kind string) hx.Case {
 		ctor = "CElems"
 	}
 	c.Coq = fmt.Sprintf("%s %s\n %s\n %s", ctor, specCoq(s), file, plyx.OutcomeCoq(out))
+	if harmful {
+		c.Coq = fmt.Sprintf("CMisplaced %s\n %s", specCoq(s), plyx.OutcomeCoq(out))
+	}
 	c.Nontriv = len(s.Verts) >= 1 && len(s.VProps) >= 3
 	if harmful {
-		c.FailKey = keyElements
+		c.Kind = "outside"
 	} else if s.Fmt == "ascii" && len(s.Verts) > 0 && len(ucharScalars(s)) > 0 {
 		c.FailKey = keyUcharRaw
 	}
@@ -940,7 +943,11 @@ func main() {
 			run.Count("failkey:" + c.FailKey)
 		}
 		if c.Kind == "outside" {
-			run.Count("outside:" + outside(s))
+			if why := outside(s); why != "" {
+				run.Count("outside:" + why)
+			} else {
+				run.Count("outside:misplaced element records")
+			}
 		}
 		for _, o := range s.Others {
 			run.Count("other-element-" + o.Pos)
